@@ -3,10 +3,10 @@
 Require Extraction.
 Require ExtrOcamlBasic.
 From Coq Require Import List NArith.
-From TG.Model Require Import CoreAst Scope BangOps Indexer IndexerOps.
+From TG.Model Require Import CoreAst Scope BangOps Indexer IndexerOps ClassVisit.
 From TG.Model Require SymbolMap.
 
 Extraction Language OCaml.
 Extraction "extract/ixbridge_core.ml"
-  mkWs index_ws s_bad abs kinds_coded kind_code entry_is_class log_fresh
-  SymbolMap.get_arena SymbolMap.sm_pos SymbolMap.sm_diags SymbolMap.p_targs SymbolMap.p_fields SymbolMap.p_parents.
+  mkWs index_ws s_bad abs absN declared_classes kinds_coded kind_code entry_is_class log_fresh
+  SymbolMap.get_arena SymbolMap.sm_pos SymbolMap.sm_diags SymbolMap.sm_name_to_class SymbolMap.sm_name_to_def SymbolMap.sm_name_to_multiclass SymbolMap.p_targs SymbolMap.p_fields SymbolMap.p_parents.
